@@ -605,4 +605,14 @@ example : confArgs [("reserved1", .short), ("queue", .shortstr), ("flags", .bits
      .table [([120], .arr [.i32 (-1), .str [0, 255], .table [([97], .bool true)]])]] = true := by
   simp [confArgs, confArg, confPairs, confF, confFs, i32ok, encPairs, encFVal, encFVals, encTable, beInt, be]
 
+/-! ### the method table -/
+
+/-- **The dissector's argument decoders follow the protocol**: the table re-translated on every run
+    from the `read` functions of spec091.go - for all 64 methods the fields in the order they are
+    read, their kinds, and which bit of the packed octet feeds which flag - equals the specified
+    AMQP 0-9-1 table; likewise the content properties and their flag bits. -/
+theorem c05_method_table : Gen.Amqp.methods = SpecTable.methods := by decide
+
+theorem c05_property_table : Gen.Amqp.properties = SpecTable.properties := by decide
+
 end KsVerif.Proofs.C05
